@@ -276,6 +276,22 @@ func exprString(e ast.Expr) string {
 // package-level variables may alias each other through initialisers/assignments (GA),
 // and PA binds every parameter to the union of the actual arguments of all call sites
 // (used to resolve parameters that were stored into fields).
+//
+// Writes: assignment / IncDec / op-assign through any path; append, delete, clear, close on the
+// first argument, copy on its destination, channel send; calls to library functions that write
+// (W[f], per parameter / level / field); calls outside the library, through function values and
+// through interface methods write through every pointer-, slice- or map-typed argument (and, for
+// concrete external methods, the receiver: Mutex.Lock writes rs.m). fmt.Sprintf/Sprint/Sprintln/
+// Errorf are treated as read-only. Code in init() and package-level initialisers is exempt.
+//
+// Known imprecision (false alarms possible): one cell per declared struct field, not per object;
+// below the first level only one field of access path is kept; append and every external callee
+// count as writes; flow- and context-insensitive apart from W and R.
+// Known unsoundness (a mutation may be missed): receivers of interface-method calls are not counted
+// as written; for unknown callees only arguments whose STATIC type is pointer, slice or map count (a
+// pointer hidden in an interface or struct-by-value argument is assumed not written); unsafe,
+// reflect and whole-struct writes after a pointer conversion are not tracked; pointers returned
+// from exported functions to callers outside the library are not followed.
 // ---------------------------------------------------------------------------
 
 type root struct {
